@@ -1087,7 +1087,13 @@ func (e *Exec) specEnvAt(fr *Frame, st *State) *SpecEnv {
 	// a closure sees the variables it captures (current values)
 	for fv, v := range fr.freeVars {
 		pt, ok := fv.Type().(*types.Pointer)
-		if !ok || v.Loc == nil || e.isModelStruct(pt.Elem()) {
+		if ok && e.isModelStruct(pt.Elem()) && v.T != "" {
+			// a captured struct variable: its current value, field by field
+			env.vars[fv.Name()] = Val{T: e.loadStruct(st, v.T, pt.Elem()), Typ: pt.Elem()}
+			env.refs = appendRef(env.refs, fv.Name(), v.T)
+			continue
+		}
+		if !ok || v.Loc == nil {
 			continue
 		}
 		if v.Loc.Kind == LCell || v.Loc.Kind == LBox || v.Loc.Kind == LArray {
